@@ -105,7 +105,9 @@ class Authorization:
         if scheme == "basic":
             try:
                 username, _, password = base64.b64decode(rest).decode().partition(":")
-            except (binascii.Error, UnicodeError):
+            except ValueError:
+                # binascii.Error, UnicodeError, and the plain ValueError
+                # raised for non-ASCII input.
                 return None
 
             return cls(scheme, {"username": username, "password": password})
